@@ -17,9 +17,13 @@ pub fn dir_of(pid: u32) -> PathBuf {
 }
 
 pub fn dir() -> PathBuf {
-    let d = dir_of(std::process::id());
-    let _ = std::fs::create_dir_all(&d);
-    d
+    // Created once per process: scenario paths are handed out millions of times.
+    static DIR: std::sync::OnceLock<PathBuf> = std::sync::OnceLock::new();
+    DIR.get_or_init(|| {
+        let d = dir_of(std::process::id());
+        let _ = std::fs::create_dir_all(&d);
+        d
+    }).clone()
 }
 
 /// A fresh file name inside this process's scratch directory. The counter only makes names
